@@ -239,21 +239,27 @@ def four_frame_args(rnd):
     return [irset, rnd.choice([True, False]), rnd.choice(world.MODE_NAMES), rnd.randrange(16, 31), rnd.choice(world.FAN_NAMES), rnd.choice([True, False]), False]
 
 
-def run_interleaved(rnd, n_pairs, four_frames=False):
+def run_interleaved(rnd, n_pairs, four_frames=False, shared_remote=False):
     """two API objects (any mix of classes, different identities) run their operation lists concurrently"""
     async def go():
         cases = []; texts = []
         for _ in range(n_pairs):
             t0 = rnd.randrange(1_600_000_000, 2_000_000_000)
             with time_machine.travel(float(t0), tick=False) as trav:
-                objs = [Interleaved(rnd, trav, (rnd.random() < .5) if not (four_frames and j == 0) else True, "%06x" % rnd.randrange(1 << 24), "%02x" % rnd.randrange(256)) for j in range(2)]
+                objs = [Interleaved(rnd, trav, (rnd.random() < .5) if not ((four_frames and j == 0) or shared_remote) else True, "%06x" % rnd.randrange(1 << 24), "%02x" % rnd.randrange(256)) for j in range(2)]
+                shared = None
+                if shared_remote:          # two air conditioners of one model: the application holds ONE remote object for both (the manager hands out one per model)
+                    shared = four_frame_args(rnd)[0]; world.REMOTES[id(shared)] = world.SwitcherBreezeRemote(shared)
                 async def drive(o):
                     t2 = isinstance(o.api, world.SwitcherType2Api); res = []
                     for _ in range(rnd.randrange(1, 4)):
                         kind = rnd.choice([k for k in range(1, 13) if (k in world.TYPE2_KINDS) == t2])
-                        if four_frames and t2: kind = 12
+                        if (four_frames or shared is not None) and t2: kind = 12
                         c = clean_case(rnd, kind); c["id"] = o.api._device_id; c["key"] = o.api._device_key
                         if four_frames and t2: c["args"] = four_frame_args(rnd)
+                        if shared is not None:
+                            c["args"] = four_frame_args(rnd); c["args"][0] = shared
+                            if o is objs[1]: c["args"][5] = None          # the second one never asks for a swing change
                         if kind == 6: c["args"][0] = c["args"][1] = "10:00"       # the date may roll while the clock is shifted
                         txt = await o.run_unfrozen(kind, c["args"], [bytes.fromhex(r) for r in c["replies"]])
                         fs, _ = oc.split_text(txt)
@@ -290,6 +296,8 @@ def run(tier, rnd, out):
     judge(out, "two-objects-interleaved", cases, texts)
     cases, texts = run_interleaved(rnd, 40 if tier == "quick" else 1000, four_frames=True)
     judge(out, "four-frame-thermostat-flow-interleaved-with-another-object", cases, texts)
+    cases, texts = run_interleaved(rnd, 30 if tier == "quick" else 800, shared_remote=True)
+    judge(out, "two-thermostats-controlled-at-once-through-one-shared-remote-object", cases, texts)
     cases, texts = run_same_address(rnd, 6 if tier == "quick" else 100)
     judge_same_address(out, "two-objects-connected-to-one-address-operating-at-once", cases, texts)
     tcp = [c for c in oc.mixed_cases(rnd, 2 if tier == "quick" else 15) if all(len(r) > 0 for r in c["replies"])]
